@@ -1,11 +1,14 @@
 //! Correspondence for the composite constraint constructors (`constraints/composite.rs`): for random
 //! (also aliased) ids and parameters, the list of basic constraints the real constructor returns is
 //! compared exactly with the model's (`Ezpz/Model/Composite.lean`, driver command `X`).
+//! Every third case is a typed lookup of `solve_outcome.rs` (`final_value_distance/point/circle/arc`) on
+//! an outcome with arbitrary final values and arbitrary (unordered, repeated, now and then out-of-range)
+//! ids, compared exactly with `Ezpz/Model/Outcome.lean`.
 //! Usage: corr_composite <seed> <n> <out-dir>
 use ezpz_verif_harness::codec::enc_constraint;
 use ezpz_verif_harness::rng::Rng;
 use kcl_ezpz::datatypes::inputs::*;
-use kcl_ezpz::Constraint;
+use kcl_ezpz::{Config, Constraint, SolveOutcome};
 use std::io::Write;
 
 fn main() {
@@ -17,7 +20,43 @@ fn main() {
     let mut cases = std::io::BufWriter::new(std::fs::File::create(format!("{dir}/composite.cases")).unwrap());
     let mut imp = std::io::BufWriter::new(std::fs::File::create(format!("{dir}/composite.impl")).unwrap());
     let mut rng = Rng::new(seed);
+    // typed lookups (solve_outcome.rs): an outcome with arbitrary final values is obtained from the
+    // no-constraint solve, which returns the guesses as they are
+    let outcome_of = |vals: &[f64]| -> SolveOutcome {
+        kcl_ezpz::solve(&[], vals.iter().enumerate().map(|(k, v)| (k as u32, *v)).collect(), Config::default()).expect("no-constraint solve")
+    };
+    std::panic::set_hook(Box::new(|_| {}));
     for i in 0..n {
+        if i % 3 == 2 {
+            let nv = 1 + rng.below(14);
+            let vals: Vec<f64> = (0..nv).map(|_| 100.0 * rng.sym()).collect();
+            // ids mostly in range (unordered, repeated), now and then one just outside
+            let ids: Vec<u32> = (0..6).map(|_| if rng.chance(1, 40) { (nv + rng.below(2)) as u32 } else { rng.below(nv) as u32 }).collect();
+            let o = outcome_of(&vals);
+            let enc = |xs: &[f64]| xs.iter().map(|v| v.to_bits().to_string()).collect::<Vec<_>>().join(" ");
+            let (kind, used, res): (&str, usize, Result<String, _>) = match (i / 3) % 4 {
+                0 => ("lookup_distance", 1, std::panic::catch_unwind(std::panic::AssertUnwindSafe(|| enc(&[o.final_value_distance(&DatumDistance::new(ids[0]))])))),
+                1 => ("lookup_point", 2, std::panic::catch_unwind(std::panic::AssertUnwindSafe(|| {
+                    let p = o.final_value_point(&DatumPoint::new_xy(ids[0], ids[1]));
+                    enc(&[p.x, p.y])
+                }))),
+                2 => ("lookup_circle", 3, std::panic::catch_unwind(std::panic::AssertUnwindSafe(|| {
+                    let c = o.final_value_circle(&DatumCircle { center: DatumPoint::new_xy(ids[0], ids[1]), radius: DatumDistance::new(ids[2]) });
+                    enc(&[c.center.x, c.center.y, c.radius])
+                }))),
+                _ => ("lookup_arc", 6, std::panic::catch_unwind(std::panic::AssertUnwindSafe(|| {
+                    let a = o.final_value_arc(&DatumCircularArc {
+                        center: DatumPoint::new_xy(ids[0], ids[1]),
+                        start: DatumPoint::new_xy(ids[2], ids[3]),
+                        end: DatumPoint::new_xy(ids[4], ids[5]),
+                    });
+                    enc(&[a.a.x, a.a.y, a.b.x, a.b.y, a.center.x, a.center.y])
+                }))),
+            };
+            writeln!(cases, "X {kind} {} {} {}", ids[..used].iter().map(|v| v.to_string()).collect::<Vec<_>>().join(" "), nv, enc(&vals)).unwrap();
+            writeln!(imp, "{}", res.unwrap_or_else(|_| "PANIC".to_owned())).unwrap();
+            continue;
+        }
         let pool = if rng.chance(1, 3) { 4 } else { 40 };
         let mut id = || rng.below(pool) as u32;
         let ids: Vec<u32> = (0..9).map(|_| id()).collect();
